@@ -50,7 +50,7 @@ let parse_batch gctr toks =
       | e :: sz :: lam :: bad :: np :: r ->
         let ps, r = take (int_of_string np) r in
         let g = !gctr in incr gctr;
-        evs (k - 1) r ({ pg = n_of_z (Z.of_int g); p_eid = n_of_tok e; p_pars = List.map n_of_tok ps;
+        evs (k - 1) r ({ pg = n_of_z (ZA.of_int g); p_eid = n_of_tok e; p_pars = List.map n_of_tok ps;
                          p_size = n_of_tok sz; p_lamport = n_of_tok lam; p_bad = (bad = "1") } :: acc)
       | _ -> failwith "bad event" in
     let es, r = evs n r [] in
@@ -136,7 +136,7 @@ let eval inp obs =
   let stok = Printf.sprintf "S.%s.%s" (tok_of_n (held_n sf)) (tok_of_n (held_s sf)) in
   let mobs = pre @ [qtok] @ post @ [stok] @ (if warned sf then ["W"] else []) @ ["M.1"]
              @ List.map (fun b -> "BZ." ^ string_of_int b) busy in
-  let busy_n = List.map (fun b -> n_of_z (Z.of_int b)) busy in
+  let busy_n = List.map (fun b -> n_of_z (ZA.of_int b)) busy in
   let bts = List.map (fun x -> x.bt) bs in
   let spec_ok, note =
     if not parsed then Some false, "unparsable-observation" else
